@@ -155,6 +155,8 @@ func newFakeOkta() *vFakeOkta {
 			delete(f.tokens, in.StateToken)
 			u.push = ""
 			json.NewEncoder(rw).Encode(okta.OktaApiPushResponseType{Status: "SUCCESS"})
+		case "timeout":
+			json.NewEncoder(rw).Encode(okta.OktaApiPushResponseType{Status: "MFA_CHALLENGE", FactorResult: "TIMEOUT"})
 		default:
 			json.NewEncoder(rw).Encode(okta.OktaApiPushResponseType{Status: "MFA_CHALLENGE", FactorResult: "REJECTED"})
 		}
